@@ -25,10 +25,11 @@ type ReadRec struct {
 
 // WriteRec is one buffered write in program order.
 type WriteRec struct {
-	Key   string
-	Op    string // set | insert | delete
-	Value []byte
-	Step  int
+	Key    string
+	Op     string // set | insert | delete
+	Value  []byte
+	Step   int
+	Assert string // assertion flag put on the key with this write ("", "exist", "notexist")
 }
 
 // LockRec is one successful pessimistic lock call.
@@ -47,6 +48,7 @@ type TxnRec struct {
 	Async       bool
 	OnePC       bool
 	Causal      bool
+	AssertLevel int
 	StartTS     uint64
 	BeginStep   int
 	Reads       []ReadRec
@@ -240,7 +242,8 @@ func CheckHistory(txns []*TxnRec, truth *Truth, keys []string, rules map[string]
 			}
 		}
 		// R-lock: nothing commits on a locked key between the lock's for-update ts and the locker's commit
-		if on("lock") && o.Committed && t.Pessimistic {
+		// (an optimistic transaction's LockKeys protects the key from its start ts on)
+		if on("lock") && o.Committed {
 			for k, fu := range t.LockedKeys() {
 				for _, v := range truth.Versions[k] {
 					if v.Start != t.StartTS && v.Kind != "rollback" && v.Commit > fu && v.Commit < o.CommitTS {
